@@ -541,35 +541,81 @@ package gocql
 // Iter well-formedness (established by executeQuery; assumed here): rows present => framer set;
 // fetch() always yields an Iter (errors travel in Iter.err).
 //@ func (iter *Iter) readColumn
-//@   props C04 C05 C15
+//@   props C04 C05
 //@   requires iter.framer != nil
 //@   ensures result1 == nil ==> true
 
-//@ func (n *nextIter) fetch
+// what a query needs to be executed again for its next page: either pinned to a connection that is
+// ready for executeQuery, or belonging to a session with an executor
+//@ predicate conn_ready(c, q): c.session != nil && c.session.stmtsLRU != nil && c.host != nil && q.routingInfo != nil && plru_bound(c.session.stmtsLRU) && c.logger != nil
+//@ predicate query_ready(q): q != nil && (q.conn != nil ==> conn_ready(q.conn, q)) && (q.conn == nil ==> q.session != nil && q.session.executor != nil && q.session.executor.policy != nil && q.session.executor.pool != nil)
+
+// an iterator with a follow-up page can fetch it: the page's query is executable, and a page that
+// was fetched already is there
+//@ predicate iter_wf(it): it.next != nil ==> query_ready(it.next.qry) && (it.next.once.done.v != 0 ==> it.next.next != nil)
+
+//@ func (q *Query) Context
 //@   props C15
-//@   trusted sync.Once + executeQuery always return a non-nil *Iter
+//@   modifies nothing
 //@   ensures result != nil
 
+//@ func (s *Session) Closed
+//@   props C15
+//@   modifies nothing
+
+//@ func (s *Session) executeQuery
+//@   props C15
+//@   count_calls queryExecutor.executeQuery
+//@   requires qry != nil && s.executor != nil && s.executor.policy != nil && s.executor.pool != nil
+//@   before queryExecutor.executeQuery: typeis(arg1, *Query) && unbox(arg1, *Query) == qry
+//@   ensures result != nil && queryExecutor_executeQuery_calls <= 1
+// iterators built by Conn.executeQuery satisfy iter_wf (checked there); the executor forwards them
+//@   ensures_assumed iter_wf(result)
+
+// The next page is fetched at most once per nextIter (sync.Once), with this nextIter's own query,
+// on the pinned connection if there is one; later calls return the same page.
+//@ func (n *nextIter) fetch
+//@   props C15
+//@   count_calls Conn.executeQuery Session.executeQuery
+//@   requires query_ready(n.qry)
+//@   requires n.once.done.v != 0 ==> n.next != nil
+//@   before Conn.executeQuery: arg0 == n.qry.conn && arg2 == n.qry
+//@   before Session.executeQuery: arg0 == n.qry.session && arg1 == n.qry
+//@   ensures result != nil && result == n.next && n.once.done.v != 0
+//@   ensures old(n.once.done.v) != 0 ==> Conn_executeQuery_calls == 0 && Session_executeQuery_calls == 0 && result == old(n.next)
+//@   ensures old(n.once.done.v) == 0 ==> Conn_executeQuery_calls + Session_executeQuery_calls == 1
+//@   ensures_assumed iter_wf(result)
+
 //@ func scanColumn
-//@   props C04 C05 C15
+//@   props C04 C05
 //@   requires len(dest) >= 0
 //@   assume col.TypeInfo != nil
 //@   assume typeis(col.TypeInfo, TupleTypeInfo) || true
 
 //@ func (iter *Iter) Scan
-//@   props C04 C05 C15
+//@   props C04 C05
 //@   boundary
+//@   count_calls nextIter.fetch fetchAsync readColumn
 //@   assume iter.pos < iter.numRows ==> iter.framer != nil
+//@   requires iter_wf(iter)
+// an iterator in error yields nothing and asks for nothing
+//@   ensures[C15] old(iter.err) != nil ==> !result && nextIter_fetch_calls == 0 && fetchAsync_calls == 0 && readColumn_calls == 0
+// after the last page (no follow-up): normal end, no request
+//@   ensures[C15] old(iter.err) == nil && old(iter.pos >= iter.numRows) && old(iter.next) == nil ==> !result && nextIter_fetch_calls == 0 && fetchAsync_calls == 0 && readColumn_calls == 0 && iter.err == nil
+// a page is switched only when the current one is exhausted, to this iterator's own follow-up page
+//@   before[C15] nextIter.fetch: arg0 == iter.next && iter.pos >= iter.numRows && iter.err == nil
+// a row of the current page: the position advances by one, the page stays
+//@   ensures[C15] result && old(iter.err) == nil && old(iter.pos < iter.numRows) ==> iter.pos == old(iter.pos) + 1 && iter.numRows == old(iter.numRows) && nextIter_fetch_calls == 0
 
 //@ func (is *iterScanner) Next
-//@   props C04 C05 C15
+//@   props C04 C05
 //@   boundary
 //@   requires is.iter != nil
 //@   assume is.iter.pos < is.iter.numRows ==> is.iter.framer != nil
 //@   loop 0: invariant 0 <= i
 
 //@ func (is *iterScanner) Scan
-//@   props C04 C05 C15
+//@   props C04 C05
 //@   boundary
 //@   requires is.iter != nil
 
@@ -1087,6 +1133,8 @@ package gocql
 
 //@ func (q *queryExecutor) executeQuery
 //@   props C13
+// every do() returns an Iter (proved); the speculative path forwards one of them over a channel
+//@   ensures_assumed result1 == nil ==> result0 != nil
 //@   count_calls do go IsIdempotent Attempts
 //@   requires q.policy != nil && q.pool != nil && qry != nil
 //@   ensures IsIdempotent_calls >= 1
@@ -1520,6 +1568,7 @@ package gocql
 //@   at_return[C15] typeis(resp, *resultRowsFrame) && iter.next != nil ==> same(iter.next.qry.stmt, qry.stmt) && same(iter.next.qry.values, qry.values) && iter.next.qry.pageSize == qry.pageSize && iter.next.qry.cons == qry.cons && iter.next.qry.session == qry.session && iter.next.qry.disableAutoPage == qry.disableAutoPage
 //@   at_return[C15] typeis(resp, *resultRowsFrame) && iter.next != nil ==> len(iter.next.qry.pageState) == len(x.meta.pagingState) && forall(k, 0 <= k && k < len(x.meta.pagingState), iter.next.qry.pageState[k] == x.meta.pagingState[k])
 //@   at_return[C15] typeis(resp, *resultRowsFrame) ==> iter.numRows == x.numRows && iter.framer == framer
+//@   at_return[C15] typeis(resp, *resultRowsFrame) && iter.next != nil ==> iter.next.qry.conn == qry.conn && iter.next.qry.routingInfo == qry.routingInfo && iter.next.once.done.v == 0 && iter.next.next == nil
 //@   ensures executeQuery_calls == 0 ==> exec_calls <= 1
 //@   ensures evictPreparedID_calls == executeQuery_calls
 //@   loop 0: invariant 0 <= i && i <= len(values) && len(params.values) == len(values) && len(values) == info.request.actualColCount && info.request.actualColCount == len(info.request.columns) && marshalQueryValue_calls == i && prepareStatement_calls == 1 && prepareStatement_ret1 == nil && prepareStatement_ret0 == info && exec_calls == 0 && executeQuery_calls == 0 && evictPreparedID_calls == 0
